@@ -69,9 +69,13 @@ class SignatureTrie:
             tyvar = None
             for dtype, child in self.children.items():
                 base_type = types.without_const(dtype)
-                match_dtype = (
-                    tyvars[base_type.name] if isinstance(base_type, Tyvar) and base_type.name in tyvars else dtype
-                )
+                if isinstance(base_type, Tyvar) and base_type.name in tyvars:
+                    # the const modifier belongs to the parameter, not to the type variable
+                    match_dtype = types.without_const(tyvars[base_type.name])
+                    if types.is_const(dtype):
+                        match_dtype = types.with_const(match_dtype)
+                else:
+                    match_dtype = dtype
                 if isinstance(types.without_const(match_dtype), Tyvar):
                     assert tyvar is None
                     tyvar = dtype
@@ -106,7 +110,12 @@ class SignatureTrie:
         if len(all_matches) == 0:
             return None
 
-        return all_matches[best_signature_match(sig, [match[0] for match in all_matches])]
+        distances = [sig_distance(sig, match[0]) for match in all_matches]
+        best_distance = min(distances)
+        if distances.count(best_distance) > 1:
+            # ambiguous, e.g. if all arguments are null literals
+            return None
+        return all_matches[distances.index(best_distance)]
 
 
 # returns the index of the signature in `candidates` that matches best
